@@ -112,3 +112,12 @@ def rule_commit(ctx):
 
 
 RULES.append(("C05.f", "branch-commit: between the decision to perform an effect and the effect there is no way out", rule_commit))
+
+
+def rule_state_layout(ctx):
+    from . import c13
+    c13.rule_state_layout(ctx)
+    c13.rule_runnable_exists(ctx)
+
+
+RULES.append(("C05.g", "layout of the packed task state word; runnable_exists predicate", rule_state_layout))
